@@ -96,7 +96,8 @@ def mutate(body, truth, mut, a, b, boundary):
                'hdr_noname': b'Content-Disposition: form-data; filename="x"', 'hdr_emptyval': b'Content-Disposition:', 'hdr_emptyblock': b'',
                'hdr_quote': b'Content-Disposition: form-data; name="a; filename="b', 'hdr_only_name': b'name="a"',
                'hdr_barename': [b'Content-Disposition: form-data; name', b'Content-Disposition: form-data; name; filename="x"', b'Content-Disposition: form-data; name="a"; filename',
-                                b'Content-Disposition: form-data; name=; filename=', b'Content-Disposition: form-data; NAME'][b % 5]}[mut]
+                                b'Content-Disposition: form-data; name=; filename=', b'Content-Disposition: form-data; NAME', b'Content-Disposition: form-data; name= ', b'Content-Disposition: form-data; name=\t; filename="x"',
+                                b'Content-Disposition: form-data; name="a"; filename= ; x=y', b'Content-Disposition: form-data; name=" "', b'Content-Disposition:  ; name="a"'][b % 10]}[mut]
         return body[:s] + new + body[e:]
     if mut == 'bare_cr':
         return body[:pos] + b'\r' + body[pos:]
@@ -462,7 +463,7 @@ def run(ctx):
                 bd, _ = encode_multipart('bnd', [p0, {'name': 'b', 'value': b'tail'}], b'', b'\r\n')
                 ctx.guarded(check_case, {'family': 'multipart', 'body': bd, 'ctype': 'multipart/form-data; boundary=bnd', 'boundary': 'bnd', 'mutations': [['part_length', 0, 0]],
                                          'framing': 'length', 'fr_a': 0, 'fr_b': 1, 'chunks': [], 'B': 102400, 'access': ['POST', 'files'], 'pattern': [], 'method': 'POST'})
-        for b in range(5):
+        for b in range(10):
             mutated = mutate(wf2, truth2, 'hdr_barename', 0, b, 'bnd')
             for a in (0, 1, 2):
                 mutated2 = mutate(wf2, truth2, 'hdr_barename', a, b, 'bnd')
